@@ -218,7 +218,25 @@ def run(prog, R):
     ss = [k for k in prog.bodies if k.startswith(S2S + "syntax_to_semantic") and "{closure" not in k]
     if ss:
         b = prog.body(ss[0])
-        ps = SymExec(prog, b, max_visits=1, max_paths=5000).paths()
+        # module-private functions called only (transitively) from the statement loop stand for it: a tail of the
+        # loop extracted into a helper is evaluated as part of the loop
+        cg_ = prog.callgraph()
+        callers_ = defaultdict(set)
+        for a_, bs_ in cg_.items():
+            for b__ in bs_:
+                callers_[b__].add(a_)
+        LOOP_HELPERS = set()
+        changed_ = True
+        while changed_:
+            changed_ = False
+            for k_ in prog.bodies:
+                if k_ in LOOP_HELPERS or k_ == ss[0] or not k_.startswith(S2S) or "{closure" in k_ or not str(prog.body(k_).vis).startswith("in "):
+                    continue
+                cs_ = callers_.get(k_, set())
+                if cs_ and all(c_ == ss[0] or c_ in LOOP_HELPERS for c_ in cs_):
+                    LOOP_HELPERS.add(k_)
+                    changed_ = True
+        ps = SymExec(prog, b, max_visits=1, max_paths=5000, inline=lambda c: c in LOOP_HELPERS).paths()
         rows = set()
         for p in ps:
             ins = [c for c in p.calls if c[0].endswith("Program::insert_stmt")]
@@ -238,13 +256,14 @@ def run(prog, R):
     # would hand an annotation that is pending when the enclosing statement starts (i.e. written in front of it) to
     # a statement inside it.
     cons = sorted(k for k, b_ in prog.bodies.items() for _, t in b_.calls() if (b_.callee_of(t) or "").endswith(("Context::take_annotations", "asg::AnnotatedStmt::new")))
-    okc = bool(cons) and all(k == S2S + "syntax_to_semantic" for k in cons)
+    LH_ = LOOP_HELPERS if ss else set()
+    okc = bool(cons) and all(k == S2S + "syntax_to_semantic" or k in LH_ for k in cons)
     R.ob("C06.4-annotations", "pending annotations are consumed only by the top-level statement loop", okc, prog.body(cons[0]).at if cons else "",
          f"consumers: {sorted(set(inventory.ishort(k) for k in cons))}" + ("" if okc else ": a nested consumer attaches an annotation written before the enclosing statement to a statement inside it"))
     # the pending-annotation list is touched only in three ways: pushed by the AnnotationStatement arm, tested and taken by
     # the top-level loop.  Any other access (clearing at the end of a file, peeking elsewhere) changes which statement an
     # annotation lands on, in particular across include boundaries.
-    acc = sorted({(inventory.ishort(k), (b_.callee_of(t) or "").split("::")[-1]) for k, b_ in prog.bodies.items() if not k.startswith("oq3_semantics::context::Context::")
+    acc = sorted({(inventory.ishort(S2S + "syntax_to_semantic" if k in LH_ else k), (b_.callee_of(t) or "").split("::")[-1]) for k, b_ in prog.bodies.items() if not k.startswith("oq3_semantics::context::Context::")
                   for _, t in b_.calls() if (b_.callee_of(t) or "").startswith("oq3_semantics::context::Context::") and "annotation" in (b_.callee_of(t) or "").split("::")[-1]})
     want_acc = [("semantics::syntax_to_semantics::stmt_to_asg_stmt", "push_annotation"), ("semantics::syntax_to_semantics::syntax_to_semantic", "annotations_is_empty"), ("semantics::syntax_to_semantics::syntax_to_semantic", "take_annotations")]
     R.ob("C06.4-annotations", "accesses to the pending-annotation list", acc == want_acc, "", f"{acc}" if acc == want_acc else f"accesses {acc}; expected exactly {want_acc}")
